@@ -42,8 +42,20 @@ func cbBusy(stack string) bool {
 	if strings.Contains(stack, "hx.Stacks(") {
 		return false
 	}
-	return strings.Contains(stack, "(*TimingWheel).runTasks") ||
-		strings.Contains(stack, "go-zero/core/threading")
+	if strings.Contains(stack, "(*TimingWheel).runTasks") || strings.Contains(stack, "go-zero/core/threading") {
+		return true
+	}
+	// any other goroutine of the wheel itself (a refactoring may deliver callbacks from a long-lived
+	// worker): busy unless it is a caller inside the public API, the run loop, or parked waiting for work
+	if !strings.Contains(stack, "collection.(*TimingWheel).") || strings.Contains(stack, "collection.(*TimingWheel).run(") {
+		return false
+	}
+	for _, l := range strings.Split(stack, "\n") {
+		if apiFrame(l) {
+			return false
+		}
+	}
+	return busy(stack)
 }
 
 func pause(us int64) {
